@@ -3,15 +3,17 @@ import astq
 from rules import genreset, jit, jitcross, rv64, rvhsem
 
 LEVEL = 'other'
-TECHNIQUE = 'cross-target parse (clang --target=riscv64) of the back-end that this host never compiles + sibling agreement with the interpreter on resolved-AST feature vectors, known-bits evaluation of emitted constants and of branch-offset bit scatter against the ISA encoding tables, finite enumeration of the literal-pool index, max-path code-size bound against the assembled template'
+TECHNIQUE = ('cross-target parse (clang --target=riscv64) of the back-end that this host never compiles + sibling agreement with the interpreter on resolved-AST feature vectors, known-bits evaluation of emitted constants and of branch-offset bit scatter against the ISA encoding tables, finite enumeration of the literal-pool index, max-path code-size bound against the assembled template'
+         '; symbolic translation validation of the integer register-form handlers: known-bits execution of the emitter for constant instruction fields, decoding of the emitted code, application to a register file of terms over r0..r7, comparison of normal forms with the terms of specification 5.2 (RV64IMC decoder, rotation idiom srl/sll/or recognised); needs / must-set summaries of generator state')
 CLAIM = ('Decides statically, on the RV64GC configuration: the back-end and its companion units type-check; its opcode table, last-writer marking per instruction and guard, src == dst special-casing and the IMUL_RCP no-op rule agree with the interpreter; '
          'CBRANCH constants are right for all 16 shifts, the jump target is the last writer of the branch register, each branch form is used only within its encodable range and scatters the distance bits as the ISA demands; '
          'emitImm32 splits every 32-bit constant correctly and uses addiw after lui; every IMUL_RCP literal is stored where the emitted load reads it, inside the pool and clear of the other literals; scratchpad mask selection equals the decoder\'s and '
          'the mask / E-mask literals and registers line up with the template; ISUB_R does not negate before sign extension; the SuperscalarHash emitter handles all 14 kinds; per-instruction code fits the reserve; RW/RX/RWX helpers and mapping sizes are consistent. '
-         'The meaning of the emitted RV64 words beyond the branch/immediate encodings and of the hand-written runtime is not decided; the vector (RVV) code path is not analysed.'
+         'The meaning of the emitted words is decided for the ten integer register-form instructions (RV-HSEM: 2744 cases) and for the SuperscalarHash emitter except IMUL_RCP (RV-SS-HSEM) by symbolic execution on a register file of terms; no generator member survives a generate* call (GEN-RESET). Memory-form, floating-point, store and branch handlers and the hand-written runtime remain covered by the structural rules only; the vector (RVV) generator belongs to C01 / C18.'
          ' The far CBRANCH form is decoded from the emitted constant (branch-if-not-zero over the 4-byte jal).')
 LEVEL_NOTE = 'Trusted: clang cross parse with host libstdc++ headers plus stub headers; RISC-V instruction semantics and the B/J/CB encoding tables written into the checker; the hand-written runtime jit_compiler_rv64_static.S (label distances, literal words and literal loads are read).'
-EXPLANATION = 'PORT-TYPECHECK(K3), TAB-OPC, LW-SIB, SPLIT-SIB, RCP-NOOP, CBR-BITS/TARGET, RV-BRANCH-RANGE, RV-BRANCH-ENC, RV-IMM32, RV-IMM32-SPLIT, RV-RCPPOOL, MEM-JITMASK, RV-EMASK, IMM-NEG, SS-EXH, CG-SIZE-RV64, WX-ARCH, A64-EMASK.'
+EXPLANATION = ('PORT-TYPECHECK(K3), TAB-OPC, LW-SIB, SPLIT-SIB, RCP-NOOP, CBR-BITS/TARGET, RV-BRANCH-RANGE, RV-BRANCH-ENC, RV-IMM32, RV-IMM32-SPLIT, RV-RCPPOOL, MEM-JITMASK, RV-EMASK, IMM-NEG, SS-EXH, CG-SIZE-RV64, WX-ARCH, A64-EMASK.'
+         ' RV-HSEM, RV-SS-HSEM, GEN-RESET.')
 
 
 def run(ctx, R):
